@@ -191,11 +191,14 @@ class FileDirectivePduBase(AbstractFileDirectiveBase):
 
     def _verify_file_len(self, file_size: int):
         """Can be used by subclasses to verify a given file size"""
-        if self.pdu_header.file_flag == LargeFileFlag.LARGE and file_size > pow(2, 64):
-
+        if (
+            self.pdu_header.file_flag == LargeFileFlag.LARGE
+            and file_size > pow(2, 64) - 1
+        ):
             raise ValueError(f"File size {file_size} larger than 64 bit field")
-        elif self.pdu_header.file_flag == LargeFileFlag.NORMAL and file_size > pow(
-            2, 32
+        elif (
+            self.pdu_header.file_flag == LargeFileFlag.NORMAL
+            and file_size > pow(2, 32) - 1
         ):
             raise ValueError(f"File size {file_size} larger than 32 bit field")
 
